@@ -38,7 +38,9 @@ def pool():
     C1 = RecordDescriptor("t/c", [("stringlist", "a"), ("string", "b")])             # identifiers coincide
     C2 = RecordDescriptor("t/c", [("string", "a"), ("string", "listb")])
     N = RecordDescriptor("t/n", [("record", "r"), ("record[]", "rs"), ("varint", "k")])
-    assert C1.identifier == C2.identifier and C1 != C2
+    # (harness precondition about the hash input only; that C1 and C2 are DIFFERENT descriptors for the library is part
+    # of what the histories below test: a descriptor comparison that confuses them loses C2's definition frame)
+    assert C1.identifier == C2.identifier
     mk = {
         "A": lambda i: A(s="a%d" % i, n=i, _generated=T0),
         "A2": lambda i: A2(s="b%d" % i, _generated=T0),
@@ -48,6 +50,9 @@ def pool():
         "N_C2": lambda i: N(r=C2(a="z", listb="w", _generated=T0), rs=[], k=i, _generated=T0),
         "G": lambda i: GroupedRecord("grp/x", [A(s="g", n=i, _generated=T0), C2(a="u", listb="v", _generated=T0)]),
         "G_N": lambda i: GroupedRecord("grp/y", [N(r=A2(s="d", _generated=T0), rs=[], k=i, _generated=T0), A(s="h", n=i, _generated=T0)]),
+        # two members whose types share a NAME but not their fields (two versions of one type in a group)
+        "G_AA2": lambda i: GroupedRecord("grp/z", [A(s="v1", n=i, _generated=T0), A2(s="v2", _generated=T0)]),
+        "G_A2A": lambda i: GroupedRecord("grp/z", [A2(s="w2", _generated=T0), A(s="w1", n=i, _generated=T0), A2(s="w3", _generated=T0)]),
     }
     return mk
 
